@@ -812,11 +812,11 @@ func fillHashHelper(r interface{}, depth int, env *Zlisp, preferSym bool) (Sexp,
 			}
 		}
 		hash, err := MakeHash(pairs, typeName, env)
+		panicOn(err)
 		if foundzKeyOrder {
 			err = SetHashKeyOrder(hash, keyOrd)
 			panicOn(err)
 		}
-		panicOn(err)
 		return hash, nil
 
 	case []byte:
